@@ -22,14 +22,18 @@ ASSUMPTIONS = ["single-IMF extraction (get_next_imf) is the trusted building blo
                "for 'if' the first frequency itself is only required to lie in (0, 0.5)"]
 
 
-def spec_mask_imf(emd, x, z, a, P, opts):
+STAGE_OPTS = [(None, None), (None, None), ({'interp_method': 'pchip'}, None), (None, {'pad_width': 4, 'parabolic_extrema': True}),
+              ({'interp_method': 'mono_pchip'}, {'pad_width': 1})]
+
+
+def spec_mask_imf(emd, x, z, a, P, opts, eo=None, xo=None):
     """mean_p [ get_next_imf(x + m_p) - m_p ], any(flags)."""
     t = np.arange(x.size)
     outs = []
     flags = []
     for p in range(P):
         m = a * np.cos(2 * np.pi * z * t + 2 * np.pi * p / P)
-        imf, fl = emd.sift.get_next_imf((x + m)[:, None], **opts)
+        imf, fl = emd.sift.get_next_imf((x + m)[:, None], envelope_opts=eo, extrema_opts=xo, **opts)
         outs.append(np.asarray(imf)[:, 0] - m)
         flags.append(bool(fl))
     return np.mean(outs, axis=0), any(flags)
@@ -48,17 +52,24 @@ def imf_case(draw):
                                  {'env_step_size': 0.5, 'sd_thresh': 0.05}]))
     return {'sig': sig, 'z': draw(st.sampled_from([0.4, 0.25, 0.11, 0.03, 0.007])),
             'amp': draw(st.sampled_from([0.0, 0.3, 1.0, 2.5, -0.7])), 'nphases': draw(st.integers(1, 8)),
-            'nproc': draw(st.integers(1, 8)), 'opts': opts}
+            'nproc': draw(st.integers(1, 8)), 'opts': opts, 'stage': draw(st.integers(0, len(STAGE_OPTS) - 1))}
 
 
 def oracle_imf(case, rec):
     import emd
     x = gens.sig_of(case['sig'])
     z, a, P, opts = case['z'], case['amp'], case['nphases'], dict(case['opts'])
+    eo, xo = STAGE_OPTS[case.get('stage', 0)]
+    skw = {}
+    if eo is not None:
+        skw['envelope_opts'] = dict(eo)
+    if xo is not None:
+        skw['extrema_opts'] = dict(xo)
+    rec.cls('stage-options=%s' % ('default' if not skw else '+'.join(sorted(skw))))
     try:
         with Trace() as tr:
-            got, flag = emd.sift.get_next_imf_mask(x[:, None].copy(), z, a, nphases=P, nprocesses=case['nproc'], imf_opts=dict(opts))
-        base, bflag = emd.sift.get_next_imf_mask(x[:, None].copy(), z, a, nphases=P, nprocesses=1, imf_opts=dict(opts))
+            got, flag = emd.sift.get_next_imf_mask(x[:, None].copy(), z, a, nphases=P, nprocesses=case['nproc'], imf_opts=dict(opts), **skw)
+        base, bflag = emd.sift.get_next_imf_mask(x[:, None].copy(), z, a, nphases=P, nprocesses=1, imf_opts=dict(opts), **skw)
     except emd.support.EMDSiftCovergeError:
         raise Discard('convergence error')
     except Exception as e:
@@ -70,7 +81,7 @@ def oracle_imf(case, rec):
         raise Violation('C07/get_next_imf_mask/depends-on-nprocesses', 'nprocesses=%d vs 1: max dev %.3g' % (
             case['nproc'], np.abs(got - np.asarray(base)).max()))
     try:
-        exp, eflag = spec_mask_imf(emd, x, z, a, P, opts)
+        exp, eflag = spec_mask_imf(emd, x, z, a, P, opts, eo, xo)
     except emd.support.EMDSiftCovergeError:
         raise Discard('convergence error in the specification')
     scale = max(np.abs(x).max(), abs(a), 1e-300)
@@ -80,7 +91,7 @@ def oracle_imf(case, rec):
     if bool(flag) != eflag:
         raise Violation('C07/get_next_imf_mask/flag', 'got %r expected %r' % (flag, eflag))
     if a == 0:
-        plain, _ = emd.sift.get_next_imf(x[:, None].copy(), **opts)
+        plain, _ = emd.sift.get_next_imf(x[:, None].copy(), envelope_opts=eo, extrema_opts=xo, **opts)
         if np.abs(got - np.asarray(plain)).max() / scale > 1e-12:
             raise Violation('C07/get_next_imf_mask/zero-amplitude-differs-from-unmasked', '')
         rec.cls('zero-amplitude')
@@ -111,7 +122,8 @@ def sift_case(draw):
     opts = draw(st.sampled_from([None, {'stop_method': 'fixed', 'max_iters': 4}, {'sd_thresh': 0.2}]))
     return {'sig': sig, 'freqs': freqs, 'mode': draw(st.sampled_from(['abs', 'ratio_sig', 'ratio_imf'])), 'amp': amp,
             'step': draw(st.sampled_from([1.5, 2, 2.0, 3, 4.0])), 'nphases': draw(st.integers(1, 8)),
-            'nproc': draw(st.integers(2, 8)), 'max_imfs': draw(st.integers(1, 6)), 'opts': opts}
+            'nproc': draw(st.integers(2, 8)), 'max_imfs': draw(st.integers(1, 6)), 'opts': opts,
+            'stage': draw(st.integers(0, len(STAGE_OPTS) - 1))}
 
 
 def oracle_sift(case, rec):
@@ -122,6 +134,12 @@ def oracle_sift(case, rec):
     kw = dict(mask_amp=amp.copy() if isinstance(amp, np.ndarray) else amp, mask_amp_mode=case['mode'],
               mask_step_factor=case['step'], nphases=case['nphases'], max_imfs=case['max_imfs'],
               imf_opts=None if opts is None else dict(opts))
+    eo, xo = STAGE_OPTS[case.get('stage', 0)]
+    if eo is not None:
+        kw['envelope_opts'] = dict(eo)
+    if xo is not None:
+        kw['extrema_opts'] = dict(xo)
+    rec.cls('stage-options=%s' % ('default' if eo is None and xo is None else 'custom'))
     freqs = case['freqs']
     fa = list(freqs) if isinstance(freqs, list) else freqs
     try:
@@ -154,7 +172,7 @@ def oracle_sift(case, rec):
         if src == 'float':
             z0 = freqs
         elif src == 'zc':
-            first, _ = emd.sift.get_next_imf(x[:, None].copy(), **o)
+            first, _ = emd.sift.get_next_imf(x[:, None].copy(), envelope_opts=eo, extrema_opts=xo, **o)
             z0 = zero_crossings(np.asarray(first)[:, 0]) / x.size / 4
         else:
             z0 = mf[0]
@@ -177,7 +195,7 @@ def oracle_sift(case, rec):
             sd = cols[-1].std()
         a = (amp[j] if isinstance(amp, np.ndarray) else amp) * sd
         try:
-            c, fl = spec_mask_imf(emd, res, ef[j], a, case['nphases'], o)
+            c, fl = spec_mask_imf(emd, res, ef[j], a, case['nphases'], o, eo, xo)
         except emd.support.EMDSiftCovergeError:
             raise Discard('convergence error in the specification')
         cols.append(c)
